@@ -151,6 +151,23 @@ def run_check(P, tier, seed, replay=None):
             distinct.add(c.line())
         hist[c.meta.get("kind", c.cmd)] += 1
 
+    # ---- additional builds of the harness (debug+overflow checks, other features): same oracle ----
+    for name in getattr(P, "EXTRA_ORACLE", []):
+        xb = extra_bins.get(name)
+        if not xb or not os.path.exists(xb):
+            continue
+        sel = [c for c in cases if getattr(P, "extra_select", lambda c, n: True)(c, name)]
+        xi = run_lines(xb, [c.line() for c in sel])
+        for c, il in zip(sel, xi):
+            why = "implementation crashed [%s build]: %s" % (name, il) if is_crash(il) else P.oracle(c, il)
+            if why:
+                k = known_class(c, il)
+                if k:
+                    known_seen[k] += 1
+                else:
+                    failures.append((Case(c.cmd, c.args, dict(c.meta, build=name)), il, None, "[%s build] %s" % (name, why)))
+        hist["extra:" + name] += len(sel)
+
     # ---- known findings: replay witnesses -------------------------------------------------
     kf_lines = []
     for e in known_findings(prop):
